@@ -338,6 +338,9 @@ func TestC05Child(t *testing.T) {
 		j.WriteString(fmt.Sprintf("done %d\n", i))
 	}
 	j.WriteString("finished\n")
+	if os.Getenv("VERIF_C05_EXIT") == "1" {
+		os.Exit(0)
+	}
 	// stay alive until killed (or give up after a while)
 	time.Sleep(5 * time.Second)
 	os.Exit(0)
@@ -533,3 +536,211 @@ func (r *recTB) Fatalf(format string, a ...interface{}) {
 }
 func (r *recTB) Logf(string, ...interface{}) {}
 func (r *recTB) Helper()                     {}
+
+
+// ---- (d) crash at every write system call -------------------------------------
+
+// c05BuildPlan draws an operation list and the model after every prefix.
+func c05BuildPlan(t *rapid.T, dir string, temp, gca ref.Key, maxOps int) (c05Plan, []*ref.Model) {
+	plan := c05Plan{Dir: dir, Temp: temp, GCA: gca}
+	plan.Ops = append(plan.Ops, c05Op{Kind: "register"})
+	m := ref.NewModel(temp.Pub)
+	models := []*ref.Model{m.Clone()}
+	m.Registered, m.GCA = true, gca.Pub
+	models = append(models, m.Clone())
+	keys := map[uint32]ref.Key{}
+	now := uint32(0)
+	next := uint32(0)
+	for i, n := 0, rapid.IntRange(3, maxOps).Draw(t, "ops"); i < n; i++ {
+		live := m.DeviceIDs()
+		kind := rapid.SampledFrom([]string{"authorize", "report", "report", "report", "clock", "rotate"}).Draw(t, "kind")
+		if len(live) == 0 {
+			kind = "authorize"
+		}
+		switch kind {
+		case "authorize":
+			var a ref.Auth
+			if len(live) > 0 && rapid.IntRange(0, 4).Draw(t, "conflict") == 0 {
+				a = m.Devices[rapid.SampledFrom(live).Draw(t, "id")]
+				a.ProtocolFee++
+			} else {
+				next++
+				keys[next] = keyFor(fmt.Sprintf("c05k-dev-%d", next))
+				a = ref.Auth{ShortID: next, PublicKey: keys[next].Pub, Capacity: 1 << 30}
+			}
+			a.Sig = ref.Sign(gca, a.SigningBytes())
+			plan.Ops = append(plan.Ops, c05Op{Kind: "authorize", Auth: a})
+			m.Authorize(a)
+		case "report":
+			id := rapid.SampledFrom(live).Draw(t, "id")
+			r := ref.SignedReport(keys[id], id, now+uint32(rapid.IntRange(0, 9).Draw(t, "slot")), uint64(50+rapid.IntRange(0, 2).Draw(t, "p")))
+			plan.Ops = append(plan.Ops, c05Op{Kind: "report", Raw: r.Encode()})
+			if v := m.Judge(r.Encode(), now, ref.Verify); v.Accept {
+				m.Apply(r)
+			}
+		case "clock":
+			now += uint32(rapid.IntRange(1, 300).Draw(t, "adv"))
+			if int64(now)-int64(m.Offset) > 3100 {
+				now = m.Offset + 3100
+			}
+			plan.Ops = append(plan.Ops, c05Op{Kind: "clock", Clock: now})
+		case "rotate":
+			if rapid.IntRange(0, 3).Draw(t, "really") != 0 {
+				continue
+			}
+			plan.Ops = append(plan.Ops, c05Op{Kind: "rotate"})
+			m.Rotate()
+			now = m.Offset + 100
+		}
+		models = append(models, m.Clone())
+	}
+	return plan, models
+}
+
+func readJournal(path string) (up bool, done, started int, errLine string) {
+	done, started = -1, -1
+	f, err := os.Open(path)
+	if err != nil {
+		return
+	}
+	defer f.Close()
+	sc := bufio.NewScanner(f)
+	for sc.Scan() {
+		var k int
+		line := sc.Text()
+		if line == "up" {
+			up = true
+		}
+		if strings.HasPrefix(line, "error") {
+			errLine = line
+		}
+		if n, _ := fmt.Sscanf(line, "start %d", &k); n == 1 {
+			started = k
+		}
+		if n, _ := fmt.Sscanf(line, "done %d", &k); n == 1 {
+			done = k
+		}
+	}
+	return
+}
+
+var c05DataFiles = []string{"server.keys", "gcaPubKey.dat", "equipment-authorizations.dat", "equipment-reports.dat", "allDeviceStats.dat"}
+
+// TestC05SyscallCrash kills the victim process at the entry of its k-th
+// write(2) on any data file, for every k, using strace's fault injection
+// (-e inject=write:signal=KILL:when=k with -P path filters). This is the
+// process-crash model at system-call granularity: it also exposes states that
+// lie between two writes of one operation.
+func TestC05SyscallCrash(t *testing.T) {
+	ev.Rule("C05(d): a generated plan is executed by a child process under strace, which delivers SIGKILL at the entry of the k-th write(2) to any of the five data files, for EVERY k of the plan (all writes enumerated; plans are sampled); oracle as in (c): the server starts on the directory and the recovered state equals the model after the completed operations, with the one in flight applied or not; non-trivial = kill inside an operation with a non-empty recovered state")
+	if _, err := exec.LookPath("strace"); err != nil {
+		ev.Set("c05_syscall_crash", "skipped: strace not available")
+		t.Skip("strace not available")
+	}
+	bin := os.Getenv("VERIF_BIN")
+	if bin == "" {
+		bin = os.Args[0]
+	}
+	rapid.Check(t, func(t *rapid.T) {
+		temp, gca := keyFor("temp"), keyFor("gca")
+		tplDir := world.NewServerDir(temp.Pub)
+		defer os.RemoveAll(tplDir)
+		plan, models := c05BuildPlan(t, tplDir, temp, gca, pick(10, 30))
+		runChild := func(dir string, k int, traceOut string) {
+			p := plan
+			p.Dir = dir
+			planFile := dir + ".plan.json"
+			pb, _ := json.Marshal(p)
+			os.WriteFile(planFile, pb, 0644)
+			args := []string{"-f", "-qq", "-o", traceOut, "-e", "trace=write"}
+			for _, f := range c05DataFiles {
+				args = append(args, "-P", filepath.Join(dir, f))
+			}
+			if k > 0 {
+				args = append(args, "-e", fmt.Sprintf("inject=write:signal=KILL:when=%d", k))
+			}
+			args = append(args, bin, "-test.run", "^TestC05Child$", "-test.timeout", "60s")
+			cmd := exec.Command("strace", args...)
+			cmd.Env = append(os.Environ(), "VERIF_C05_PLAN="+planFile, "VERIF_C05_EXIT=1", "VERIF_EV_OUT=", "VERIF_JOURNAL=", "VERIF_LASTCASE=")
+			cmd.Run()
+		}
+		// count the writes of the whole plan
+		cdir := world.NewServerDir(temp.Pub)
+		trace := cdir + ".trace"
+		runChild(cdir, 0, trace)
+		tb, _ := os.ReadFile(trace)
+		total := strings.Count(string(tb), "write(")
+		up, done, _, errLine := readJournal(cdir + ".plan.json.journal")
+		os.RemoveAll(cdir)
+		os.Remove(trace)
+		os.Remove(cdir + ".plan.json")
+		os.Remove(cdir + ".plan.json.journal")
+		if errLine != "" || !up || done != len(plan.Ops)-1 {
+			if total == 0 {
+				ev.Set("c05_syscall_crash", "skipped: ptrace/strace could not trace the child")
+				t.Skip("strace could not trace the child")
+			}
+			t.Fatalf("C05: the untouched child run did not complete: up=%v done=%d of %d %s", up, done+1, len(plan.Ops), errLine)
+		}
+		if total == 0 {
+			ev.Set("c05_syscall_crash", "skipped: strace saw no write (ptrace unavailable?)")
+			t.Skip("strace saw no writes")
+		}
+		for k := 1; k <= total; k++ {
+			dir := world.NewServerDir(temp.Pub)
+			runChild(dir, k, "/dev/null")
+			up, done, started, errLine := readJournal(dir + ".plan.json.journal")
+			os.Remove(dir + ".plan.json")
+			os.Remove(dir + ".plan.json.journal")
+			if errLine != "" {
+				os.RemoveAll(dir)
+				t.Fatalf("C05: the child could not start its server: %s", errLine)
+			}
+			cands := []*ref.Model{models[done+1]}
+			if started > done && started+1 < len(models) {
+				cands = append(cands, models[started+1])
+			}
+			what := fmt.Sprintf("SIGKILL at the entry of write #%d of %d on the data files: server up=%v, %d of %d operations done, operation %d in flight", k, total, up, done+1, len(plan.Ops), started)
+			lastCase(map[string]interface{}{"kill": what})
+			matched := false
+			firstErr := ""
+			for ci, want := range cands {
+				img := world.CopyDir(dir)
+				rec := &recTB{}
+				func() {
+					defer func() {
+						if r := recover(); r != nil {
+							if _, ok := r.(recAbort); !ok {
+								panic(r)
+							}
+						}
+					}()
+					server.VerifSetStepping(true)
+					checkImage(rec, "C05", temp, img, want, fmt.Sprintf("%s (candidate %d)", what, ci))
+				}()
+				world.StopAllLeaked()
+				server.VerifPanics()
+				if rec.msg == "" {
+					matched = true
+					break
+				}
+				if firstErr == "" {
+					firstErr = rec.msg
+				}
+			}
+			os.RemoveAll(dir)
+			ev.Eval(1)
+			if !matched {
+				t.Fatalf("C05: %s: the recovered server equals neither the state after the completed operations nor that state plus the operation in flight.\nfirst mismatch: %s", what, firstErr)
+			}
+			if done >= 0 {
+				ev.NonTrivial(fmt.Sprintf("c05|syscall|%d|%d|%d|%d", len(plan.Ops), total, k, done))
+				if k%9 == 2 {
+					ev.Sample("c05:syscall-crash", what)
+				}
+			}
+			ev.Label("c05:syscall-kill")
+		}
+		ev.Exhaustive("c05: every write(2) of each generated plan")
+	})
+}
